@@ -633,6 +633,7 @@ fn pkt_attrib(chip: Chip7, p: &PktP) -> Vec<Attr> {
         a.xor = false;
     }
     v.extend([attr(0x33, 0xFF, op, format!("iq={}", p.iq as u8)), attr(0x3B, 0xFF, op, format!("iq={}", p.iq as u8))]);
+    v.push(Attr { addr: 0x0D, bits: 0xFF, op: "WriteFifo", class: "-".to_string(), label: None, xor: false });
     v
 }
 
@@ -736,6 +737,7 @@ pub fn sc_mod(cfg: Cfg, rng: &mut Prng, m: ModP, armed: bool) -> Scenario {
                 // init_lora arms the version-0x12 quirk; it also writes sync word and base addresses
                 s.ours.push(Step::Init(0x1424));
                 s.refs.extend([RStep::SyncWord(0x12), RStep::Raw(0x0E, 0x00), RStep::Raw(0x0F, 0x00)]);
+                s.attrib.extend(flow_attrib(IrqMode::NoMode));
             }
             s.ours.push(Step::Mod(m));
             s.refs.push(RStep::Mod(m));
